@@ -35,7 +35,7 @@ ASSUMPTIONS = [
 ]
 PROBES = ["restart_after_other_use", "feature_all_steps", "resim_old_buffers_checked", "shared_underlier_resim",
           "prev_output_corrupted_then_hedged", "model_raise_then_hedged", "hedger_cast", "listed_hedge",
-          "lazy_model", "requires_grad_flag_flipped"]
+          "lazy_model", "requires_grad_flag_flipped", "kept_feature_reused"]
 
 
 class SimFault(Exception):
@@ -688,13 +688,26 @@ def _do_quant(world, op, stats, hist, seq):
             out = world.derivatives[op["derivative"]].spot
         elif k == "feature":
             d = world.derivatives[op["derivative"]]
-            f = get_feature(build_feature(op["feature"], world))
-            if isinstance(f, torch.nn.Module):
-                f.to(next(iter(d.underliers())).spot.dtype)
-            f = f.of(d)
+            import json as _json
+            fresh = get_feature(build_feature(op["feature"], world))
+            if isinstance(fresh, torch.nn.Module):
+                fresh.to(next(iter(d.underliers())).spot.dtype)
+            fresh = fresh.of(d)
             step = op["step"]
             site = "feature:%s.get(%s)" % (feature_name(op["feature"]), "None" if step is None else "i")
-            out = f.get(step)
+            # a feature object bound once and kept by the caller across re-simulations and other derivatives' use
+            key = _json.dumps([op["feature"], op["derivative"]], sort_keys=True)
+            kept = world.__dict__.setdefault("_kept_features", {})
+            if key in kept and not isinstance(fresh, torch.nn.Module):
+                out = kept[key].get(step)
+                ref = fresh.get(step)
+                stats.checks += 1
+                stats.probe("kept_feature_reused")
+                if not bit_equal(out.detach(), ref.detach()):
+                    raise Violation(ID, "history_dependent", site, {"kept_object": out, "fresh_object": ref}, seq)
+            else:
+                kept[key] = fresh
+                out = fresh.get(step)
             if step is None:
                 hazard = True
                 stats.probe("feature_all_steps")
